@@ -45,6 +45,12 @@ CLAIMS = {
          "the gossip path checks both stores. This covers every path and interleaving of the check-then-insert, which the three isolated index tests cannot.",
          "badger transaction semantics, hash collisions, the dynamic 'index points at the holder' invariant beyond pairing",
          "edge-cut guard dominance with access-path argument binding, path pairing obligations, who-may-write / call-graph reachability on go/ssa"),
+ "C01": ("DESIGN.md §3 C01",
+         "Static guard-dominance and role analysis of per-tip funds validation: an edge confirming a tip is added only from vertices that passed validateLeaf (value-bound) or were already confirmed; a failing tip is deleted with its index entry on every path; "
+         "validateLeaf succeeds only for a root, in the non-spice/trusted branch fed solely by checkIsTrustedNode(signer), or behind the funds check; checkpoint funds, the tip and every walker item reach the funds check with consistent in/out roles; "
+         "pourFunds classifies issuer→outflow / receiver→inflow with the same amount; no accounting error is dropped. Holds for every DAG shape and delivery order, which six fixed scenarios cannot show.",
+         "that the library walker enumerates all ancestors, the arithmetic (C05), the post-truncation IsRoot shortcut, cross-node merge (C02)",
+         "edge-cut guard dominance with value binding, origin (may-flow) analysis through slices/φ/named results, return classification on go/ssa"),
 }
 
 NA = {
